@@ -252,3 +252,20 @@ pub fn big_values(bytes: usize) -> Vec<(String, Value)> {
     ));
     out
 }
+
+/// Every escape sequence a string literal can contain: `"\\uXXXX"` for all 65536 code units,
+/// `"\\c"` for every printable ASCII `c`, and the malformed / repeated-`u` forms.
+pub fn escape_texts() -> Vec<String> {
+    let mut out = vec![];
+    for u in 0..=0xFFFFu32 {
+        out.push(format!("\"\\u{:04x}\"", u));
+    }
+    for c in 0x20u8..0x7f {
+        out.push(format!("\"\\{}\"", c as char));
+    }
+    for t in ["\"\\", "\"\\u", "\"\\u0", "\"\\u00", "\"\\u004", "\"\\u\"", "\"\\u004\"", "\"\\uu0041\"", "\"\\uuu0041\"", "\"\\u00G1\"",
+              "\"\\U0041\"", "\"\\u0041\\u0042\"", "\"a\\u0041b\"", "\"\\ud83d\\ude00\"", "{a:\"\\u0041\"}", "@a(\"\\n\")", "\"\\\\u0041\""] {
+        out.push(t.to_string());
+    }
+    out
+}
